@@ -11,6 +11,7 @@ EXPLANATION = (
     "slice, pre_dispatch='all' disables lazy dispatch and hands the iterator over unwrapped, pre_dispatch "
     "expressions are evaluated arithmetic-only, closing the generator aborts. The numeric bound under every "
     "schedule additionally needs the backends' at-most-once callback contract and is NOT decided."
+    ' Nothing the instance remembers from an earlier call flows into the pre_dispatch amount; skipping the look-ahead wrapper on the input size requires an exact len.'
 )
 ASSUMPTIONS = [
     "the pools call the completion callback at most once per submitted batch",
